@@ -14,7 +14,7 @@ ShapeDef(t, cs, sel) ==
     [] k = 0 /\ sel % 3 = 1 -> [tag |-> "composite", fields |-> <<>>]
     [] k = 0 /\ sel % 3 = 2 -> [tag |-> "variant", variants |-> <<[name |-> "A", fields |-> <<>>, index |-> 7, docs |-> <<"dv">>]>>]
     [] k = 1 /\ sel % 4 = 0 -> [tag |-> "sequence", ty |-> cs[1]]
-    [] k = 1 /\ sel % 4 = 1 -> [tag |-> "array", len |-> 3, ty |-> cs[1]]
+    [] k = 1 /\ sel % 4 = 1 -> [tag |-> "array", len |-> IF t % 2 = 0 THEN 0 ELSE 3, ty |-> cs[1]]      \* also the empty array: it still refers to its element type
     [] k = 1 /\ sel % 4 = 2 -> [tag |-> "compact", ty |-> cs[1]]
     [] k = 1 /\ sel % 4 = 3 -> [tag |-> "composite", fields |-> <<F(<<"x">>, cs[1], <<"X">>, <<"fx">>)>>]
     [] k = 2 /\ sel % 4 = 0 -> [tag |-> "bitsequence", store |-> cs[1], order |-> cs[2]]
